@@ -32,7 +32,7 @@ STUB_COMPONENTS = ["leaf processors (svsim.lib)", "RecordingExecutor (inline, = 
 ASSUMPTIONS = ["jsonschema Draft 2020-12 + referencing implement the schemas faithfully",
                "SERs are validated against the registry-mapped schema only (not the header), as the property states",
                "a base pipeline whose fault-free run deviates from generator bookkeeping is discarded and counted"]
-REQUIRED_PROBES = ["run_started_inside_except_block", "failure_at_first_node", "failure_at_last_node", "construction_error", "abort_class_failure", "directory_mode"]
+REQUIRED_PROBES = ["run_started_inside_except_block", "failure_at_first_node", "failure_at_last_node", "construction_error", "abort_class_failure", "directory_mode", "orchestrator_shared_by_different_pipelines"]
 CONFIG = {
     "quick": {"runs": 800, "budget_s": 240, "timeout_s": 120},
     "thorough": {"runs": 25000, "budget_s": 1500, "timeout_s": 120},
@@ -71,6 +71,11 @@ def execute(sc: dict, seed: int) -> dict:
             subs.append((kind, k, gen.apply_failure(base, kind, k)))
         if sc.get("only") is not None:
             subs = [s for s in subs if [s[0], s[1]] == list(sc["only"]) or (s[0] == "none" and sc.get("with_base", True))]
+        # in a seeded third of the evaluations ONE orchestrator object serves every Pipeline of the evaluation (the sub-runs
+        # are different configurations: nodes inserted, replaced, removed)
+        shared_orch = harness.make_orchestrator() if rng.random() < 0.33 else None
+        if shared_orch is not None:
+            stats["probe.orchestrator_shared_by_different_pipelines"] = 1
         for i, (kind, k, s) in enumerate(subs):
             detail = rng.choice(harness.DETAILS)
             mode = rng.choice(["file", "file", "dir", "dir", "cwd", "dotdir"])
@@ -79,10 +84,10 @@ def execute(sc: dict, seed: int) -> dict:
                 try:
                     raise LookupError("handled by the caller before this run started")
                 except LookupError:
-                    rr = harness.run_scenario(s, w, trace_mode=mode, detail=detail, name=f"t{i}")
+                    rr = harness.run_scenario(s, w, trace_mode=mode, detail=detail, name=f"t{i}", orchestrator=shared_orch)
                 stats["probe.run_started_inside_except_block"] = stats.get("probe.run_started_inside_except_block", 0) + 1
             else:
-                rr = harness.run_scenario(s, w, trace_mode=mode, detail=detail, name=f"t{i}")
+                rr = harness.run_scenario(s, w, trace_mode=mode, detail=detail, name=f"t{i}", orchestrator=shared_orch)
             oc = rr["outcome"]
             stats["subruns"] = stats.get("subruns", 0) + 1
             stats["sim_seconds"] = stats.get("sim_seconds", 0.0)
